@@ -105,11 +105,25 @@ class Path:
         self.effects = effects if effects is not None else []
         self.result = None  # (kind, term, node): return|raise|break|continue
 
+    def note_cond(self, c, pol, node, self_term=None):
+        """Record a branch decision; when it reads fields of self that were assigned earlier on this path, also record the
+        decision about the assigned values (so `self.x = None if off else make()` followed by `if self.x is None` is one decision)."""
+        self.conds.append((c, pol, node))
+        fields = getattr(self, "fields", None)
+        if fields and self_term is not None:
+            mp = {("attr", self_term, k): v for k, v in fields.items()}
+            if any(x in mp for x in subterms(c)):
+                d = replace_terms(c, mp)
+                if d != c:
+                    self.conds.append((d, pol, None))
+
     def fork(self):
         p = Path(dict(self.env), list(self.conds), list(self.effects))
         p.result = self.result
         p._choices = list(getattr(self, "_choices", ()))
         p._cpos = getattr(self, "_cpos", 0)
+        if getattr(self, "fields", None):
+            p.fields = dict(self.fields)
         return p
 
     @property
@@ -357,11 +371,34 @@ def _sentinel_truth(x, k):
     return None
 
 
+_NEVER_NONE_FUNCS = frozenset()  # (module, name) of package functions whose every exit returns a freshly built container / text (set by Analysis)
+
+
 _NEVER_NONE_BUILTINS = {"list", "set", "dict", "tuple", "sorted", "str", "int", "len", "frozenset", "bool", "float", "repr", "range", "enumerate", "zip", "reversed", "bytes"}
 _NEVER_NONE_METHODS = {"split", "rsplit", "splitlines", "join", "format", "lower", "upper", "strip", "lstrip", "rstrip", "replace", "encode", "decode", "copy", "keys", "values", "items", "hexdigest", "title", "casefold"}
 
 
+def _compute_never_none_funcs(program):
+    out = set()
+    for f in program.functions.values():
+        if f.cls is not None:
+            continue
+        rets = [n for n in ast.walk(f.node) if isinstance(n, ast.Return)]
+        body = f.node.body
+        if not rets or not isinstance(body[-1], ast.Return):
+            continue
+        if all(isinstance(r.value, (ast.List, ast.ListComp, ast.Dict, ast.DictComp, ast.Set, ast.SetComp, ast.Tuple, ast.JoinedStr)) or (isinstance(r.value, ast.Constant) and r.value.value is not None) for r in rets):
+            out.add((f.module.name, f.name))
+    return frozenset(out)
+
+
 def _never_none_call(t):
+    if isinstance(t, tuple) and t and t[0] == "call" and t[1][0] == "global" and (t[1][1], t[1][2]) in _NEVER_NONE_FUNCS:
+        return True
+    return _never_none_call0(t)
+
+
+def _never_none_call0(t):
     if t[0] != "call":
         return False
     f = t[1]
@@ -632,17 +669,31 @@ class Evaluator:
                 for i, t in enumerate(target.elts):
                     if isinstance(t, ast.Starred):
                         self.assign(t.value, ("sub", v, ("slice", const(i), None, None)), p, st, None)
+                    elif v[0] == "loopvar" and not any(isinstance(e, ast.Starred) for e in target.elts):
+                        self.assign(t, ("loopvar", v[1], v[2], tuple(v[3]) + (i,)), p, st, None)  # a, b = pair  ==  for a, b in ...
                     else:
                         self.assign(t, ("sub", v, const(i)), p, st, None)
         elif isinstance(target, ast.Attribute):
             base = self.expr(target.value, p)
             p.effects.append(Effect("store_attr", base, target.attr, v, node=st))
+            me = self._self_term()
+            if me is not None and base == me:
+                if not hasattr(p, "fields") or p.fields is None:
+                    p.fields = {}
+                if isinstance(st, ast.AugAssign) or any(x == ("attr", me, target.attr) for x in subterms(v)):
+                    p.fields.pop(target.attr, None)
+                else:
+                    p.fields[target.attr] = v
         elif isinstance(target, ast.Subscript):
             base = self.expr(target.value, p)
             key = self.index(target.slice, p)
             p.effects.append(Effect("store_sub", base, key, v, node=st))
             if isinstance(target.value, ast.Name) and target.value.id in p.env:
-                p.env[target.value.id] = ("mut", p.env[target.value.id], "__setitem__", (key, v))
+                cur = p.env[target.value.id]
+                if cur[0] == "dict" and key[0] == "const" and all(k[0] == "const" for k, _ in cur[1]):
+                    p.env[target.value.id] = ("dict", tuple((k, x) for k, x in cur[1] if k != key) + ((key, v),))  # d = {...}; d["k"] = v
+                else:
+                    p.env[target.value.id] = ("mut", cur, "__setitem__", (key, v))
         elif isinstance(target, ast.Starred):
             self.assign(target.value, v, p, st, None)
         else:
@@ -669,12 +720,19 @@ class Evaluator:
     def s_If(self, st, p, loops):
         c = self.expr(st.test, p)
         a = p.fork()
-        a.conds.append((c, True, st))
+        me = self._self_term()
+        a.note_cond(c, True, st, me)
         b = p
-        b.conds.append((c, False, st))
+        b.note_cond(c, False, st, me)
         out = self.block(st.body, [a], loops)
         out += self.block(st.orelse, [b], loops)
         return out
+
+    def _self_term(self):
+        """The term of `self` in a method analysed on its own (not inlined), else None."""
+        if self.fn.cls is not None and self.fn.params and not self.fn.is_staticmethod and not self.fn.is_classmethod and not self.inline_stack:
+            return ("param", self.fn.params[0])
+        return None
 
     def s_With(self, st, p, loops):
         for item in st.items:
@@ -1025,7 +1083,7 @@ class Evaluator:
                             done.append(q)
                     live = nxt
                 return live + done
-        if isinstance(st.iter, ast.Name) and st.iter.id in p.env and p.env[st.iter.id][0] in ("tuple", "list") and 0 < len(p.env[st.iter.id][1]) <= 8 and not any(x[0] == "star" for x in p.env[st.iter.id][1]) and st.iter.id not in mutated_names(st.body) and (st.orelse or any(isinstance(n, ast.Break) for n in ast.walk(st))):
+        if isinstance(st.iter, ast.Name) and st.iter.id in p.env and p.env[st.iter.id][0] in ("tuple", "list") and 0 < len(p.env[st.iter.id][1]) <= 8 and not any(x[0] == "star" for x in p.env[st.iter.id][1]) and st.iter.id not in mutated_names(st.body) and (st.orelse or any(isinstance(n, ast.Break) for n in ast.walk(st)) or (p.env[st.iter.id][0] == "tuple" and len(p.env[st.iter.id][1]) <= 4)):
             # a SEARCH loop (break / for-else) over a local bound to a short display: unrolled like a literal (the else part runs when no iteration broke out)
             live, done = [p], []
             for el in p.env[st.iter.id][1]:
@@ -1226,7 +1284,15 @@ class Evaluator:
             operands = [ev(node.left)] + [ev(c) for c in node.comparators]
             return ("compare", ops, tuple(operands))
         if isinstance(node, ast.Subscript):
-            t = ("sub", ev(node.value), self.index(node.slice, p))
+            base_t = ev(node.value)
+            idx_t = self.index(node.slice, p)
+            if base_t[0] == "dict" and idx_t[0] == "const" and all(k[0] == "const" for k, _ in base_t[1]):
+                hit = [v for k, v in base_t[1] if k == idx_t]
+                if hit:
+                    return hit[-1]  # {"a": x}["a"] is x
+            if base_t[0] in ("tuple", "list") and idx_t[0] == "const" and isinstance(idx_t[1], int) and not isinstance(idx_t[1], bool) and -len(base_t[1]) <= idx_t[1] < len(base_t[1]) and not any(x[0] == "star" for x in base_t[1]):
+                return base_t[1][idx_t[1]]
+            t = ("sub", base_t, idx_t)
             if not isinstance(node.slice, ast.Slice):
                 p.effects.append(Effect("subscript", t, node=node, maybe=maybe))
             return t
@@ -1365,6 +1431,20 @@ class Evaluator:
 
     def call(self, f, args, kwargs, p, node, maybe):
         args = self._expand_star(args)
+        if any(k is None for k, _ in kwargs):
+            # f(**{"a": x, "b": y}) with a dict display (possibly a local built by a literal): keyword arguments a=x, b=y
+            out = []
+            for k, v in kwargs:
+                if k is None and v[0] == "dict" and all(kk[0] == "const" and isinstance(kk[1], str) and kk[1] != "**" for kk, _ in v[1]):
+                    out.extend((kk[1], vv) for kk, vv in v[1])
+                else:
+                    out.append((k, v))
+            kwargs = out
+        if f == ("builtin", "dict") and not args and kwargs and all(k is not None for k, _ in kwargs):
+            return ("dict", tuple((("const", k), v) for k, v in kwargs))  # dict(a=x) is {"a": x}
+        if f == ("builtin", "open") and len(args) == 1 and any(k == "mode" for k, _ in kwargs):
+            args = list(args) + [v for k, v in kwargs if k == "mode"]
+            kwargs = [(k, v) for k, v in kwargs if k != "mode"]
         if f == ("builtin", "divmod") and len(args) == 2 and not kwargs:
             return ("tuple", (("binop", "//", args[0], args[1]), ("binop", "%", args[0], args[1])))
         nostar = not any(a[0] == "star" for a in args) and not any(k is None for k, _ in kwargs)
@@ -1620,8 +1700,6 @@ class Evaluator:
                 return False
             if isinstance(n, (ast.FunctionDef, ast.AsyncFunctionDef)) and n is not callee.node:
                 return False
-        if callee.vararg or callee.kwarg:
-            return False
         return True
 
     def callee_paths(self, callee):
@@ -1651,14 +1729,27 @@ class Evaluator:
             if recv is None:
                 return NotImplemented
             mapping[("param", callee.params[0])] = recv
-        if len(args) > len(params):
+        if any(a[0] == "star" for a in args) or any(k is None for k, _ in kwargs):
             return NotImplemented
+        if len(args) > len(params):
+            if not callee.vararg:
+                return NotImplemented
+            mapping[("param", "*" + callee.vararg)] = ("tuple", tuple(args[len(params):]))  # *rest receives the extra positional arguments
+            args = args[:len(params)]
+        elif callee.vararg:
+            mapping[("param", "*" + callee.vararg)] = ("tuple", ())
         for pn, a in zip(params, args):
             mapping[("param", pn)] = a
+        extra_kw = []
         for k, v in kwargs:
             if k not in params and k not in callee.kwonly:
-                return NotImplemented
+                if not callee.kwarg:
+                    return NotImplemented
+                extra_kw.append((("const", k), v))
+                continue
             mapping[("param", k)] = v
+        if callee.kwarg:
+            mapping[("param", "**" + callee.kwarg)] = ("dict", tuple(extra_kw))
         for pn in list(params) + list(callee.kwonly):
             if ("param", pn) not in mapping:
                 d = callee.defaults.get(pn)
@@ -1989,6 +2080,24 @@ class _Subst:
         out = [tag]
         for x in t[1:]:
             out.append(self.term(x) if isinstance(x, tuple) else x)
+        if tag == "call" and len(out) == 4:
+            # f(*rest) / f(**extra) where the substituted value is now a display: plain arguments
+            if any(isinstance(a, tuple) and a and a[0] == "star" and a[1][0] in ("tuple", "list") for a in out[2]):
+                flat = []
+                for a in out[2]:
+                    if a[0] == "star" and a[1][0] in ("tuple", "list") and not any(x[0] == "star" for x in a[1][1]):
+                        flat.extend(a[1][1])
+                    else:
+                        flat.append(a)
+                out[2] = tuple(flat)
+            if any(k is None and isinstance(v, tuple) and v[0] == "dict" for k, v in out[3]):
+                kws = []
+                for k, v in out[3]:
+                    if k is None and v[0] == "dict" and all(kk[0] == "const" and isinstance(kk[1], str) for kk, _ in v[1]):
+                        kws.extend((kk[1], vv) for kk, vv in v[1])
+                    else:
+                        kws.append((k, v))
+                out[3] = tuple(kws)
         return tuple(out)
 
     def effect(self, e):
@@ -2248,7 +2357,7 @@ class FunctionPaths:
             if not p.feasible():
                 continue
             for e, ls in walk_effects(p.effects):
-                key = (id(e.node), e.kind, repr(e.a) if e.kind != "loop" and e.kind != "loop_partial" else id(e.a))
+                key = (id(e.node), e.kind, repr(e.a) if e.kind != "loop" and e.kind != "loop_partial" else id(e.a), repr(e.c) if e.kind in ("store_attr", "store_sub", "store_global") else None)
                 if key not in seen:
                     seen[key] = (e, ls, p)
         for li in self.lambdas.values():
@@ -2268,8 +2377,9 @@ class Analysis:
         self.p = program
         self.folder = Folder(program)
         self._fp = {}
-        global _SENTINELS
+        global _SENTINELS, _NEVER_NONE_FUNCS
         _SENTINELS = frozenset(getattr(program, "sentinels", ()))
+        _NEVER_NONE_FUNCS = _compute_never_none_funcs(program)
 
     def paths(self, fn):
         if fn.qualname not in self._fp:
